@@ -92,3 +92,24 @@ def scratch(sub=None):
 
 def fresh_dir(prefix="w"):
     return tempfile.mkdtemp(prefix=prefix + "-", dir=scratch())
+
+
+_cfg_sig = object()
+
+
+def reset_compilers(force=False):
+    """Drop codebasin's process-wide compiler table only when the .cbi/config it would read (relative to the
+    current directory) differs from the one it was loaded with: reloading re-validates four TOML files
+    against a JSON schema (~60 ms), which would dominate every small case."""
+    global _cfg_sig
+    from codebasin import config
+
+    p = os.path.join(os.getcwd(), ".cbi", "config")
+    try:
+        with open(p, "rb") as f:
+            sig = (p, f.read())
+    except OSError:
+        sig = None
+    if force or sig != _cfg_sig or sig is not None:
+        config._compilers = None
+        _cfg_sig = sig
